@@ -139,7 +139,7 @@ def make_judge(ex, report=True):
 
 
 def main(tier):
-    if tier == 'replay':
+    if tier in ('replay', '--replay'):
         res = replay_main(sys.argv[2], make_harness)
         print('REPLAY: %s' % ('differs from the POSIX twin / sanitizer report' if (res['x'] or crash_class(res)) else 'history agrees with the POSIX twin on the current tree'))
         return 1 if (res['x'] or crash_class(res)) else 0
